@@ -588,6 +588,40 @@ theorem lookup_last_occurrence (names wires pre post : List Nat) (t : Nat) (hn :
   simp
 
 
+/-! ### frozenarray iteration -/
+
+theorem fnext_at (xs : List α) (j : Nat) (h : j < xs.length) (hn : xs.length < 2 ^ 63) :
+    fnext ⟨xs, (j : Int)⟩ = .ok (some (xs[j], ⟨xs, ((j + 1 : Nat) : Int)⟩)) := by
+  have hi : itousize (j : Int) = j := by
+    rw [itousize_of_nonneg (by omega) (by omega)]; simp
+  have hw : wrap64 ((j : Int) + 1) = ((j + 1 : Nat) : Int) := by
+    rw [wrap64_succ (by omega) (by omega)]; simp
+  simp [fnext, frozenGet, hi, h, hw, bind, Except.bind, pure, Except.pure]
+
+theorem fnext_end (xs : List α) : fnext ⟨xs, (xs.length : Int)⟩ = .ok none := by
+  simp [fnext, pure, Except.pure]
+
+theorem fdrain_from (xs : List α) (hn : xs.length < 2 ^ 63) :
+    ∀ (d j extra : Nat), j + d = xs.length →
+      fdrain (d + 1 + extra) ⟨xs, (j : Int)⟩ = .ok (some (xs.drop j)) := by
+  intro d
+  induction d with
+  | zero =>
+    intro j extra hj
+    have : j = xs.length := by omega
+    subst this
+    have hfuel : 0 + 1 + extra = extra + 1 := by omega
+    rw [hfuel]
+    simp [fdrain, fnext_end, bind, Except.bind, pure, Except.pure]
+  | succ d ih =>
+    intro j extra hj
+    have hlt : j < xs.length := by omega
+    have := ih (j + 1) extra (by omega)
+    have hfuel : d + 1 + 1 + extra = (d + 1 + extra) + 1 := by omega
+    rw [hfuel]
+    simp only [fdrain, fnext_at xs j hlt hn, bind, Except.bind, this, pure, Except.pure]
+    simp
+
 /-! unfolding lemmas are generated here (not in `Props/`) -/
 theorem runOps_nil (st : Cells α × List α) : runOps st [] = pure st := by simp [runOps]
 theorem runL_nil (st : Cells α × List α) : runL st [] = pure st := by simp [runL]
